@@ -8,7 +8,7 @@ from __future__ import annotations
 
 import random
 
-from . import c01_oracle as co  # noqa: F401  (installs the canonical content function)
+from . import c01_oracle as co
 from . import common, e3
 
 HEADER = ("From Coq Require Import List NArith Bool.\nImport ListNotations.\n"
